@@ -1,5 +1,5 @@
-(* Properties_C03.v — statements only (C03: split independence). *)
-From JC Require Import Base Value TokModel TokFrame TokChunk.
+(* Properties_C03.v — statements only (C03: incremental parsing is split-independent). *)
+From JC Require Import Base Value TokModel TokFrame TokReset TokChunk TokChunk3.
 Local Open Scope Z_scope.
 
 (* the per-call loop is a fold: running it over a ++ b is running it over a and, if a was
@@ -13,11 +13,52 @@ Theorem C03_run_app : forall sb a b t l,
 Proof. exact run_app. Qed.
 Print Assumptions C03_run_app.
 
-(* the UTF-8 continuation counter is a call-local: refuted with its witness ("é" split
-   inside the two-byte sequence under VALIDATE_UTF8: whole = success, split = utf8 error) *)
-Theorem C03_chunk_utf8_refuted :
+(* two calls: for ALL byte strings a, b (valid or not), all well-formed parser states, all
+   flag settings without UTF-8 validation: when the call on a reports that more input is
+   needed, the call on b yields the same value, status and error code as the single call
+   on a ++ b, with the end position counted from the start of a.  (With VALIDATE_UTF8 the
+   statement holds for splits on character boundaries only: the continuation counter is a
+   call-local and a call that ends inside a multi-byte character reports a UTF-8 error
+   instead of asking for more input — see C03_utf8_split_first_call_errors.) *)
+Theorem C03_chunk_independent : forall sb t a b ta ra,
+  wf_tok t -> validate_utf8 t = false ->
+  parse_ex sb t a = PR ta ra -> err ta = TE_continue ->
+  ra = None /\ wf_tok ta /\ validate_utf8 ta = false /\
+  exists tw ts r, parse_ex sb t (a ++ b) = PR tw r /\ parse_ex sb ta b = PR ts r /\
+                  err tw = err ts /\ char_offset tw = zlen a + char_offset ts.
+Proof. exact chunk_independent. Qed.
+Print Assumptions C03_chunk_independent.
+
+(* any number of calls, by induction on the list of chunks *)
+Theorem C03_chunks_independent : forall sb pre t tk last,
+  wf_tok t -> validate_utf8 t = false -> feed sb t pre = Some tk ->
+  exists tw ts r, parse_ex sb t (concat pre ++ last) = PR tw r /\ parse_ex sb tk last = PR ts r /\
+                  err tw = err ts /\ char_offset tw = zlen (concat pre) + char_offset ts.
+Proof. exact chunks_independent. Qed.
+Print Assumptions C03_chunks_independent.
+
+(* the number locals carried inside one call always equal what the resume code re-derives
+   from the saved text (this is what the repaired code guarantees) *)
+Theorem C03_number_locals_rederived : forall t n c,
+  nl_eq n (num_locals_init (pb t)) -> num_char_ok t n c = true ->
+  nl_eq (if c =? 46 then mknl (nl_exp n) true true (nl_len n + 1)
+         else if (c =? 101) || (c =? 69) then mknl true true true (nl_len n + 1)
+         else mknl (nl_exp n) false false (nl_len n + 1))
+        (num_locals_init (pb t ++ [c])).
+Proof. exact TokSim2.derive_snoc. Qed.
+Print Assumptions C03_number_locals_rederived.
+
+(* observation, not a violation of the property's premise: under VALIDATE_UTF8 a call that
+   ends inside a multi-byte character does not ask for more input, it reports a UTF-8 error *)
+Theorem C03_utf8_split_first_call_errors :
   exists t, tok_new 32 false false true = Some t /\
   (match parse_ex (fun _ => 0) t [34;195;169;34] with PR t' _ => err t' = TE_success | _ => False end) /\
   (match parse_ex (fun _ => 0) t [34;195] with PR t' _ => err t' = TE_utf8 | _ => False end).
 Proof. exact chunk_utf8_refuted. Qed.
-Print Assumptions C03_chunk_utf8_refuted.
+Print Assumptions C03_utf8_split_first_call_errors.
+
+(* non-vacuity: "[12" then "3, 4" then "5]" *)
+Theorem C03_nonvacuous :
+  exists t tk, tok_new 32 false false false = Some t /\ feed (fun _ => 0) t [[91;49;50];[51;44;32;52]] = Some tk /\
+    match parse_ex (fun _ => 0) tk [53;93] with PR t' (Some v) => v = JArr [JInt 123; JInt 45] /\ err t' = TE_success | _ => False end.
+Proof. eexists _, _. split; [reflexivity|]. split; [vm_compute; reflexivity|]. vm_compute. split; reflexivity. Qed.
